@@ -687,7 +687,21 @@ NP["numpy.max"] = NP["numpy.amax"] = _reduction("amax")
 NP["numpy.min"] = NP["numpy.amin"] = _reduction("amin")
 NP["numpy.any"] = _reduction("any", "bool")
 NP["numpy.all"] = _reduction("all", "bool")
-NP["numpy.prod"] = _reduction("prod")
+_np_prod_red = _reduction("prod")
+
+
+def np_prod(interp, name, args, kw, st, node):
+    # the product of a tuple / list of extents (np.prod(a.shape[1:])) is an extent
+    x = args[0] if args else None
+    if x is not None and x.kind in ("tuple", "list") and x.items is not None and not kw and len(args) == 1 and all(i.kind == "int" and (i.dim is not None or (i.has_const and isinstance(i.const, int))) for i in x.items):
+        d = Dim(1)
+        for i in x.items:
+            d = d.mul(i.dim if i.dim is not None else Dim(i.const))
+        return A.int_of_dim(d, _L(*x.items))
+    return _np_prod_red(interp, name, args, kw, st, node)
+
+
+NP["numpy.prod"] = np_prod
 NP["numpy.std"] = _reduction("std")
 NP["numpy.var"] = _reduction("var")
 NP["numpy.median"] = _reduction("median")
